@@ -16,17 +16,17 @@ EXTENDS DecoderImpl, Encoder, Json, TLC
 
 Trace == ndJsonDeserialize("trace.ndjson")
 
-VARIABLES l, buf, off, mode, bad, drift, desync
-vars == <<l, buf, off, mode, bad, drift, desync>>
+VARIABLES l, buf, off, mode, lt, bad, drift, desync
+vars == <<l, buf, off, mode, lt, bad, drift, desync>>
 
-Init == /\ l = 1 /\ buf = <<>> /\ off = 0 /\ mode = 0
+Init == /\ l = 1 /\ buf = <<>> /\ off = 0 /\ mode = 0 /\ lt = NoTag
         /\ bad = <<>> /\ drift = <<>> /\ desync = <<>>
 
 \* hx = 1: the harness knows what the call has to return (the value it encoded before)
 HxOK(e)    == e.hx = 1 => (e.st = "ok" /\ e.val = e.x /\ e.vals = e.xs)
 DecOK(e)   == ExplainsDecode(buf, e.p, e.mode, e.op, e, e) /\ (e.op # "NestedMsg" => HxOK(e))
 DecSame(e) == IF e.op \in {"Nested", "NestedMsg"} THEN TRUE
-              ELSE LET m == ImplStep(buf, e.p, e.mode, e.op, e) IN
+              ELSE LET m == ImplStep(buf, e.p, e.mode, e.op, e @@ [lt |-> lt]) IN
                    /\ m.st = e.st /\ m.off = e.off
                    /\ m.st = "ok" => (m.val = e.val /\ m.vals = e.vals)
 
@@ -46,7 +46,7 @@ Step ==
   /\ LET e == Trace[l] IN
      /\ l' = l + 1
      /\ CASE e.c = "new" ->
-               /\ buf' = e.buf /\ off' = 0 /\ mode' = 0
+               /\ buf' = e.buf /\ off' = 0 /\ mode' = 0 /\ lt' = NoTag
                /\ UNCHANGED <<bad, drift, desync>>
           [] e.c = "dec" ->
                /\ desync' = IF e.p = off /\ e.mode = mode THEN desync ELSE Append(desync, l)
@@ -54,35 +54,36 @@ Step ==
                /\ drift'  = IF DecSame(e) THEN drift ELSE Append(drift, l)
                /\ off'    = e.off
                /\ mode'   = IF e.op = "SetMode" THEN e.i1 ELSE e.mode
+               /\ lt'     = NextTag(lt, e.p, e.op, e)
                /\ UNCHANGED buf
           [] e.c = "cat" ->     \* concatenation of the raw fields returned by a DecodeTag/Skip walk
                /\ bad' = IF e.st = "ok" /\ e.a = buf /\ e.off = Len(buf) THEN bad ELSE Append(bad, l)
-               /\ UNCHANGED <<buf, off, mode, drift, desync>>
+               /\ UNCHANGED <<buf, off, mode, lt, drift, desync>>
           [] e.c = "enc" ->
                \* hx = 1: ref is the encoding produced by the reference implementation (protowire);
                \* specification and reference disagreeing is a defect of the machinery, not of csproto
                /\ desync' = IF ArgsOK(e) /\ (e.hx = 1 => e.ref = CanonOf(e)) THEN desync ELSE Append(desync, l)
                /\ bad'    = IF ArgsOK(e) /\ ~ExplainsEncode(e) THEN Append(bad, l) ELSE bad
-               /\ UNCHANGED <<buf, off, mode, drift>>
+               /\ UNCHANGED <<buf, off, mode, lt, drift>>
           [] e.c = "size" ->
                /\ bad' = IF ExplainsSize(e) THEN bad ELSE Append(bad, l)
-               /\ UNCHANGED <<buf, off, mode, drift, desync>>
+               /\ UNCHANGED <<buf, off, mode, lt, drift, desync>>
           [] e.c = "encn" ->
                \* hx = 1: csproto.Marshal(m) (= a) against the owning runtime's bytes (= ref)
                /\ bad' = IF (IF e.hx = 1 THEN e.a = e.ref ELSE ExplainsEncNested(e)) THEN bad ELSE Append(bad, l)
-               /\ UNCHANGED <<buf, off, mode, drift, desync>>
+               /\ UNCHANGED <<buf, off, mode, lt, drift, desync>>
           [] e.c = "encraw" ->
                /\ bad' = IF ExplainsEncRaw(e) THEN bad ELSE Append(bad, l)
-               /\ UNCHANGED <<buf, off, mode, drift, desync>>
+               /\ UNCHANGED <<buf, off, mode, lt, drift, desync>>
           [] e.c = "encmh" ->
                /\ bad' = IF ExplainsEncMapHeader(e) THEN bad ELSE Append(bad, l)
-               /\ UNCHANGED <<buf, off, mode, drift, desync>>
+               /\ UNCHANGED <<buf, off, mode, lt, drift, desync>>
           [] e.c = "prim" ->
                /\ bad' = IF PrimOK(e) THEN bad ELSE Append(bad, l)
-               /\ UNCHANGED <<buf, off, mode, drift, desync>>
+               /\ UNCHANGED <<buf, off, mode, lt, drift, desync>>
           [] OTHER ->
                /\ desync' = Append(desync, l)
-               /\ UNCHANGED <<buf, off, mode, bad, drift>>
+               /\ UNCHANGED <<buf, off, mode, lt, bad, drift>>
 
 Spec == Init /\ [][Step]_vars
 
